@@ -8,9 +8,16 @@ for d in /verif/seeded/*$pat*/; do
   wt=/tmp/mut/m_$name
   git -C /repo worktree add -q --detach "$wt" 2>/dev/null || { echo "$name: worktree failed"; continue; }
   if git -C "$wt" apply "$d/patch.diff" 2>/dev/null; then
-    out=$(cd /work/MT/verif && VERIF_REPO=$wt ./check "$id" 2>&1 | grep -v '^KNOWN-FINDING')
-    if echo "$out" | grep -q 'no-failing-input-found'; then r="TIE-ONLY"; elif echo "$out" | grep -q '^VIOLATION'; then r="CAUGHT"; elif echo "$out" | grep -q '^OK'; then r="MISSED"; else r="ERROR"; fi
-    echo "$name: $r $(echo "$out" | grep -A1 '^VIOLATION' | sed -n 2p | cut -c1-160)"
+    checks=$(jq -r '(.checks // []) | join(" ")' "$d/meta.json"); [ -z "$checks" ] && checks="$id"
+    best="MISSED"; msg=""
+    for c in $checks; do
+      out=$(cd /work/MT/verif && VERIF_REPO=$wt ./check "$c" 2>&1 | grep -v '^KNOWN-FINDING')
+      if echo "$out" | grep -q 'no-failing-input-found'; then r="TIE-ONLY"; elif echo "$out" | grep -q '^VIOLATION'; then r="CAUGHT"; elif echo "$out" | grep -q '^OK'; then r="MISSED"; else r="ERROR"; fi
+      if [ "$r" = "CAUGHT" ]; then best="CAUGHT($c)"; msg=$(echo "$out" | grep -A1 '^VIOLATION' | sed -n 2p | cut -c1-140); break; fi
+      if [ "$r" = "TIE-ONLY" ] && [ "$best" = "MISSED" ]; then best="TIE-ONLY($c)"; fi
+      if [ "$r" = "ERROR" ] && [ "$best" = "MISSED" ]; then best="ERROR($c)"; fi
+    done
+    echo "$name: $best $msg"
   else
     echo "$name: PATCH-DOES-NOT-APPLY"
   fi
